@@ -130,6 +130,17 @@ def enc_table(key, lines):
         out[s.encode('utf-8')] = base64.b64encode(unb64(r['ct'])) if 'ct' in r else None
     return out
 
+def run_alone(cfg, lines):
+    """the implementation on each line ON ITS OWN: one fresh harness process per line (no state of any kind can come from another line);
+    returns bytes | 'SKIP' | 'PANIC:..' per line"""
+    from concurrent.futures import ThreadPoolExecutor
+    req = cfg.harness_req()
+    def one(l):
+        h = run_harness([req, {"op": "line", "s": b64(l)}])[1]
+        return unb64(h['o']) if h['r'] == 'out' else ('SKIP' if h['r'] == 'skip' else 'PANIC:' + h.get('m', ''))
+    with ThreadPoolExecutor(8) as ex:
+        return list(ex.map(one, lines))
+
 def run_lines(cfg, lines):
     """run both sides on the lines under cfg; returns list of (impl, model) with impl/model = bytes | 'SKIP' | 'PANIC:..' | 'TABLEMISS'"""
     hr = run_harness([cfg.harness_req()] + [{"op": "line", "s": b64(l)} for l in lines])[1:]
